@@ -298,50 +298,54 @@ def run(ctx):
                        'scipy zpk -> state space and discretisation in LmiHinfZpkMeta: trusted']
     ctx.proof_obligations('Properties.C10', THEOREMS)
     drv = ctx.get_driver()
-    la_lines, la_meta = [], []
-    forced_struct = [(wk, order, nx, nu) for wk in ('pre', 'post') for order in (1, 2) for nx in (1, 2) for nu in (1, 2)] \
-        + [(None, None, 2, 1)]
-    for i in range(ctx.n(25, 300) + len(forced_struct)):
-        items, tag = structure_case(ctx, forced_struct[i] if i < len(forced_struct) else None)
-        for line, impl, what in items:
-            la_lines.append(line)
-            la_meta.append((impl, what, tag))
-    forced_dmdc = [(wk, order) for wk in ('pre', 'post') for order in (1, 2)] + [(None, None)]
-    for i in range(ctx.n(10, 120) + len(forced_dmdc)):
-        items, tag = dmdc_structure_case(ctx, forced_dmdc[i] if i < len(forced_dmdc) else None)
-        for line, impl, what in items:
-            la_lines.append(line)
-            la_meta.append((impl, what, tag))
-    for (impl, what, tag), rep in zip(la_meta, lc.la_ask(la_lines)):
-        ctx.count('structure:' + what)
-        ctx.record_case(dict(tag, part=what), True)
-        parts = rep.split(' | ')
-        mats = [lc.parse_mat(('ok ' + p) if not p.startswith('ok') else p) for p in parts]
-        ok = len(mats) == len(impl) and all(M is not None and M.shape == I.shape and np.allclose(M, I, rtol=1e-12, atol=1e-12)
-                                            for M, I in zip(mats, impl))
-        if not ok:
-            ctx.mismatch(f'{what}', tag, [I.tolist() for I in impl], [None if M is None else M.tolist() for M in mats])
-    lines, meta = [], []
-    for i in range(ctx.n(30, 400)):
-        nx, nu = ctx.rng.randint(1, 2), 1
-        X, kw, _, _ = lc.lin_data(ctx.rng, nx, nu)
-        mk = lambda **k: lmi.LmiEdmdHinfReg(alpha=1, ratio=1, solver_params=dict(lc.SOLVER), **k)
-        reg, script, rows, line = lc.check_loop(ctx, mk, X, kw, (nx, nx + nu), (nx, nx), None, None)
-        lines.append(line)
-        meta.append((reg, script, rows))
-    for (reg, script, rows), rep in zip(meta, drv.ask(lines)):
-        t = rep.split()
-        case = {'rows': [[a, str(o), b] for a, o, b in rows], 'stop_at': script.stop_at, 'max_iter': reg.max_iter}
-        ctx.record_case(case, True)
-        ctx.count('loop')
-        ui, pi, stop, n_iter, nlog = int(t[1]), int(t[2]), t[3], int(t[4]), int(t[5])
-        log = [float(Fraction(x)) for x in t[6:6 + nlog]]
-        obs = {'stop': lc.stop_category(reg.stop_reason_), 'n_iter': int(reg.n_iter_), 'log': [float(x) for x in reg.objective_log_]}
-        if obs != {'stop': stop, 'n_iter': n_iter, 'log': log}:
-            ctx.mismatch('loop outcome', case, obs, rep)
-        wantU = np.zeros_like(script.a[0][1]) if ui < 0 else script.a[ui][1]
-        if not np.array_equal(reg.coef_.T, wantU):
-            ctx.mismatch('returned U', case, reg.coef_.T.tolist(), [ui])
+    def _sec_problem_structure():
+        la_lines, la_meta = [], []
+        forced_struct = [(wk, order, nx, nu) for wk in ('pre', 'post') for order in (1, 2) for nx in (1, 2) for nu in (1, 2)] \
+            + [(None, None, 2, 1)]
+        for i in range(ctx.n(25, 300) + len(forced_struct)):
+            items, tag = structure_case(ctx, forced_struct[i] if i < len(forced_struct) else None)
+            for line, impl, what in items:
+                la_lines.append(line)
+                la_meta.append((impl, what, tag))
+        forced_dmdc = [(wk, order) for wk in ('pre', 'post') for order in (1, 2)] + [(None, None)]
+        for i in range(ctx.n(10, 120) + len(forced_dmdc)):
+            items, tag = dmdc_structure_case(ctx, forced_dmdc[i] if i < len(forced_dmdc) else None)
+            for line, impl, what in items:
+                la_lines.append(line)
+                la_meta.append((impl, what, tag))
+        for (impl, what, tag), rep in zip(la_meta, lc.la_ask(la_lines)):
+            ctx.count('structure:' + what)
+            ctx.record_case(dict(tag, part=what), True)
+            parts = rep.split(' | ')
+            mats = [lc.parse_mat(('ok ' + p) if not p.startswith('ok') else p) for p in parts]
+            ok = len(mats) == len(impl) and all(M is not None and M.shape == I.shape and np.allclose(M, I, rtol=1e-12, atol=1e-12)
+                                                for M, I in zip(mats, impl))
+            if not ok:
+                ctx.mismatch(f'{what}', tag, [I.tolist() for I in impl], [None if M is None else M.tolist() for M in mats])
+    ctx.attempt('problem structure', _sec_problem_structure)
+    def _sec_scripted_loop():
+        lines, meta = [], []
+        for i in range(ctx.n(30, 400)):
+            nx, nu = ctx.rng.randint(1, 2), 1
+            X, kw, _, _ = lc.lin_data(ctx.rng, nx, nu)
+            mk = lambda **k: lmi.LmiEdmdHinfReg(alpha=1, ratio=1, solver_params=dict(lc.SOLVER), **k)
+            reg, script, rows, line = lc.check_loop(ctx, mk, X, kw, (nx, nx + nu), (nx, nx), None, None)
+            lines.append(line)
+            meta.append((reg, script, rows))
+        for (reg, script, rows), rep in zip(meta, drv.ask(lines)):
+            t = rep.split()
+            case = {'rows': [[a, str(o), b] for a, o, b in rows], 'stop_at': script.stop_at, 'max_iter': reg.max_iter}
+            ctx.record_case(case, True)
+            ctx.count('loop')
+            ui, pi, stop, n_iter, nlog = int(t[1]), int(t[2]), t[3], int(t[4]), int(t[5])
+            log = [float(Fraction(x)) for x in t[6:6 + nlog]]
+            obs = {'stop': lc.stop_category(reg.stop_reason_), 'n_iter': int(reg.n_iter_), 'log': [float(x) for x in reg.objective_log_]}
+            if obs != {'stop': stop, 'n_iter': n_iter, 'log': log}:
+                ctx.mismatch('loop outcome', case, obs, rep)
+            wantU = np.zeros_like(script.a[0][1]) if ui < 0 else script.a[ui][1]
+            if not np.array_equal(reg.coef_.T, wantU):
+                ctx.mismatch('returned U', case, reg.coef_.T.tolist(), [ui])
+    ctx.attempt('scripted loop', _sec_scripted_loop)
     sweeps = [('post', fam) for fam in ('edmd', 'dmdc') for _ in range(4)] + [('pre', 'edmd'), ('pre', 'dmdc')]   # second-order weights, two states
     for i in range(ctx.n(14, 250) + len(sweeps)):
         why, case, note = oracle_fit(ctx, ctx.tier == 'thorough', forced=sweeps[i] if i < len(sweeps) else None)
